@@ -161,29 +161,36 @@ Example C08_fixed_witnesses_repaired :
 Proof. vm_compute. repeat split; reflexivity. Qed.
 
 (* ---- "Instantiating classes twice from one configuration builds, for every class given by a
-   class_path/init_args spec, two distinct fresh objects" (Model/C08Inst.v: a configuration is a tree of
-   scalars, lists and specs of any size and nesting; identity = the n-th object built by the process).
-   For every configuration and every starting state: each call builds one object per spec, the objects
-   of the two calls are pairwise distinct, and none of them existed before. *)
+   class_path/init_args spec (including specs derived from signature defaults), two distinct fresh
+   objects" (Model/C08Inst.v: a configuration is a tree of scalars, lists, tuples and specs of any size
+   and nesting, every spec listing all parameters of its class, those derived from defaults marked;
+   identity = the n-th object built by the process).  For every configuration and every starting state:
+   each call builds one object per spec, the objects of the two calls are pairwise distinct, and none
+   of them existed before — on the current tree (fx = false) under `inst_guard` (no default-derived
+   spec below a tuple; = finding class 3 of the judge), with fixes/C08-default-below-tuple-shared.patch
+   (fx = true) without any guard. *)
 Theorem C08_instantiate_twice_fresh :
-  forall (c : nat) (cfg : ivals),
-    let '(ids1, ids2) := inst_twice c cfg in
+  forall (fx : bool) (c : nat) (cfg : ivals),
+    (fx = false -> inst_guard cfg = true) ->
+    let '(ids1, ids2) := inst_twice fx c cfg in
     NoDup (ids1 ++ ids2) /\ (forall i, In i (ids1 ++ ids2) -> c <= i)
     /\ length ids1 = count_list cfg /\ length ids2 = count_list cfg.
 Proof. exact instantiate_twice_fresh. Qed.
 Print Assumptions C08_instantiate_twice_fresh.
 
 Theorem C08_instantiate_twice_pairwise_distinct :
-  forall (c : nat) (cfg : ivals) (k : nat),
+  forall (fx : bool) (c : nat) (cfg : ivals) (k : nat),
+    (fx = false -> inst_guard cfg = true) ->
     k < count_list cfg ->
-    nth k (fst (inst_twice c cfg)) 0 <> nth k (snd (inst_twice c cfg)) 0.
+    nth k (fst (inst_twice fx c cfg)) 0 <> nth k (snd (inst_twice fx c cfg)) 0.
 Proof. exact instantiate_twice_pairwise_distinct. Qed.
 Print Assumptions C08_instantiate_twice_pairwise_distinct.
 
 (* the executable spec used by the correspondence judge accepts exactly this behaviour ... *)
 Theorem C08_instantiate_twice_spec :
-  forall (c : nat) (cfg : ivals),
-    fresh_twice_ok c cfg (fst (inst_twice c cfg)) (snd (inst_twice c cfg)) = true.
+  forall (fx : bool) (c : nat) (cfg : ivals),
+    (fx = false -> inst_guard cfg = true) ->
+    fresh_twice_ok c cfg (fst (inst_twice fx c cfg)) (snd (inst_twice fx c cfg)) = true.
 Proof. exact instantiate_twice_spec. Qed.
 Print Assumptions C08_instantiate_twice_spec.
 
@@ -193,12 +200,22 @@ Theorem C08_cached_instantiate_refuted :
 Proof. exact cached_instantiate_refuted. Qed.
 Print Assumptions C08_cached_instantiate_refuted.
 
-(* Node(child=Pair(left=Leaf(5))), [Leaf(1)] with two pre-existing objects: 4 + 4 objects, numbered 2..9 *)
+(* finding on the current tree: the unguarded statement is false.  (Pair(), 1) for Tuple[Base, int],
+   Pair.left having a lazy_instance signature default: both calls (and every other configuration) get
+   the one live default object of the signature; the repaired model builds fresh ones. *)
+Theorem C08_default_below_tuple_shared_refuted :
+  exists cfg, inst_guard cfg = false
+              /\ fresh_twice_ok 1 cfg (fst (inst_twice false 1 cfg)) (snd (inst_twice false 1 cfg)) = false
+              /\ fresh_twice_ok 1 cfg (fst (inst_twice true 1 cfg)) (snd (inst_twice true 1 cfg)) = true.
+Proof. exact default_below_tuple_shared_refuted. Qed.
+Print Assumptions C08_default_below_tuple_shared_refuted.
+
+(* Node(child=Pair(left=<default> Leaf(5))), [Leaf(1)]: inside the guard; 4 + 4 objects, numbered 2..9 *)
 Example C08_instantiate_twice_example :
-  inst_twice 2 (ICons (ISpec [78]%N (ICons (ISpec [80]%N (ICons (ISpec [76]%N (ICons (IInt 5) INil)) INil)) (ICons (IInt 3) INil)))
-               (ICons (IList (ICons (ISpec [76]%N (ICons (IInt 1) INil)) INil)) INil))
-  = ([2; 3; 4; 5], [6; 7; 8; 9])%nat.
-Proof. vm_compute. reflexivity. Qed.
+  let cfg := ICons (ISpec false [78]%N (ICons (ISpec false [80]%N (ICons (ISpec true [76]%N (ICons (IInt 5) INil)) INil)) (ICons (IInt 3) INil)))
+               (ICons (IList (ICons (ISpec false [76]%N (ICons (IInt 1) INil)) INil)) INil) in
+  inst_guard cfg = true /\ inst_twice false 2 cfg = ([2; 3; 4; 5], [6; 7; 8; 9])%nat.
+Proof. vm_compute. split; reflexivity. Qed.
 
 (* ---- try/finally regions in general: any nesting of regions around any body that leaves the globals
    alone (returning or raising) leaves them alone; in particular the skeletons of parse_args with a
